@@ -39,6 +39,23 @@ using nitro::log::detail::null_stream;
 template <severity_level S>
 using smart = nitro::log::detail::smart_stream<record, fmt_t, sink_t, flt, S>;
 
+// the filter judges the STATEMENT's severity: the record receives it whenever it has a severity attribute, wherever that
+// attribute stands in the record's attribute list (has_attribute rests on the pack-membership trait)
+using nitro::meta::is_variadic_member;
+static_assert(is_variadic_member<int, int>::value, "[C10 a1] pack membership: only element");
+static_assert(is_variadic_member<int, int, char, long>::value, "[C10 a2] pack membership: first element");
+static_assert(is_variadic_member<int, char, int, long>::value, "[C10 a3] pack membership: middle element");
+static_assert(is_variadic_member<int, char, long, int>::value, "[C10 a4] pack membership: LAST element");
+static_assert(!is_variadic_member<int, char, long>::value, "[C10 a5] pack membership: absent");
+static_assert(!is_variadic_member<int>::value, "[C10 a6] pack membership: empty pack");
+using record_sev_last = nitro::log::record<nitro::log::message_attribute, nitro::log::severity_attribute>;
+using record_sev_first = nitro::log::record<nitro::log::severity_attribute, nitro::log::message_attribute>;
+using record_no_sev = nitro::log::record<nitro::log::message_attribute>;
+static_assert(nitro::log::detail::has_attribute<nitro::log::severity_attribute, record_sev_last>::value, "[C10 a7] a record whose LAST attribute is the severity has a severity (set_severity writes it, the filter reads it)");
+static_assert(nitro::log::detail::has_attribute<nitro::log::severity_attribute, record_sev_first>::value, "[C10 a8] a record whose first attribute is the severity has a severity");
+static_assert(!nitro::log::detail::has_attribute<nitro::log::severity_attribute, record_no_sev>::value, "[C10 a9] a record without severity attribute has none");
+static_assert(nitro::log::detail::has_attribute<nitro::log::severity_attribute, record>::value, "[C10 a10] the witness record has a severity");
+
 // documented order (5 asserts)
 static_assert(severity_level::trace < severity_level::debug, "[C10 o1] trace < debug");
 static_assert(severity_level::debug < severity_level::info, "[C10 o2] debug < info");
